@@ -36,7 +36,7 @@ ASSUMPTIONS = [
     "reference model refmodel/dpentry.py (optimum and optimal-tag set of the offered candidates)",
     "tags are truthy hashable values (the implementation documents None as 'no tag')",
 ]
-BUDGET = {"quick": 120, "thorough": 1500}
+BUDGET = {"quick": 600, "thorough": 1500}
 
 VALUES = (0, 1, 2)
 TAGS = (None, "a", "b")
